@@ -117,13 +117,19 @@ PROPS['C04'] = {
 PROPS['C07'] = {
     'theorems': ['RQ.pairsOK_related', 'RQ.pairsOK_mentioned', 'RQ.C07_pairs', 'RQ.C07', 'RQ.C07_total', 'RQ.C07_disjoint'],
     'jobs': [{'quick': ['dist', 'seed={seed}', 'n=30000', 'names=4', 'len=3'],
-              'thorough': ['dist', 'seed={seed}', 'n=400000', 'names=5', 'len=4']}],
-    'nontrivial': lambda l: l.split('|')[3].count(';') >= 1 and re.search(r'\d:\d', l.split('|')[3]) is not None,
-    'histogram': lambda c, d: ['pairs=%d' % min(9, (c.split('|')[3].count(';') + 1 if c.split('|')[3] != '-' else 0)),
-                               'threads=' + c.split('|')[2]],
+              'thorough': ['dist', 'seed={seed}', 'n=400000', 'names=5', 'len=4']}] +
+            # the real parallel driver: which file patches it queues for which worker (hook record_queues)
+            [{'quick': ['push', 'seed={seed}', 'n=3000', 'inv=2', 'threads=2,3,4', 'patches=6'],
+              'thorough': ['push', 'seed={seed}', 'n=100000', 'inv=2', 'threads=2,3,4,8', 'patches=8']}],
+    'nontrivial': lambda l: (re.search(r'queues=\d', l) is not None) if l.startswith('W|') else (l.split('|')[3].count(';') >= 1 and re.search(r'\d:\d', l.split('|')[3]) is not None),
+    'histogram': lambda c, d: (['driver-level:' + (re.search(r'C07=(\w+)', d).group(1) if re.search(r'C07=(\w+)', d) else '?')] if c.startswith('W|') else
+                              ['pairs=%d' % min(9, (c.split('|')[3].count(';') + 1 if c.split('|')[3] != '-' else 0)),
+                               'threads=' + c.split('|')[2]]),
     'rule': "exhaustive: every sequence of <= 3 (thorough: 4) pairs (name, optional related name) over 4 (thorough: 5) names, "
             "each with thread counts 1, 2, 3, 4096; plus random sequences of up to 24 pairs over 2-13 names, thread counts "
-            "1..4096. distinct = hash of input; non-trivial = at least two pairs, one of them relating two names",
+            "1..4096. distinct = hash of input; non-trivial = at least two pairs, one of them relating two names. Plus generated "
+            "workspaces pushed with --threads 2-4 (thorough: 8): the parallel driver reports through a hook which file patches it "
+            "queued for which worker thread, and every file name must be mentioned by the queue of one worker only",
     'explanation': "Theorem C07: for every sequence of pairs (any order, any multiplicity) and every positive thread count, names "
                    "in the equivalence closure of the pairs get the same worker from FilenameDistributor add/build (union-find "
                    "invariant: parents point to smaller indices, unions are root-to-root, one compression pass reaches roots); "
@@ -378,8 +384,8 @@ PROPS['C13'] = {
 
 PROPS['C05'] = {
     'theorems': ['RQ.Abs.C05_apply_refines', 'RQ.Abs.C05_tree_on_disk', 'RQ.Abs.C05_oracle_agrees', 'RQ.Abs.C05_disk_is_oracle', 'RQ.Abs.C05_pushSpec_agrees', 'RQ.Abs.C05_disk_is_pushSpec', 'RQ.Abs.C05_exit_and_names',
-                 'RQ.Refine2.C05_push_refines_pushSpec', 'RQ.Refine2.C05_push_refines_pushSpec_any', 'RQ.Refine2.C05_push_refines_pushSpec_files', 'RQ.Refine2.C05_push_refines_pushSpec_whole'],
-    'extra_modules': ['RQ.Props.C05Refine'],
+                 'RQ.Refine2.C05_push_refines_pushSpec', 'RQ.Refine2.C05_push_refines_pushSpec_any', 'RQ.Refine2.C05_push_refines_pushSpec_files', 'RQ.Refine2.C05_push_refines_pushSpec_whole', 'RQ.Refine2.C05_push_refines_pushSpec_all'],
+    'extra_modules': ['RQ.Props.C05Refine', 'RQ.Props.C08Refine'],
     'verdict': 'SPEC',
     'jobs': push_jobs(['inv=2', 'patches=5'], ['inv=3', 'patches=6'], nq=4000) +
             [{'quick': ['pushsched', 'seed={seed}', 'n=900', 'perws=3', 'fail=75', 'morefail=70'], 'thorough': ['pushsched', 'seed={seed}', 'n=30000', 'perws=6', 'fail=75', 'morefail=70']}],
@@ -403,8 +409,9 @@ PROPS['C05'] = {
 PROPS['C08'] = {
     'theorems': ['RQ.Abs.C08_calls', 'RQ.Abs.C08_window', 'RQ.Abs.C08_modes', 'RQ.Abs.C08_backup_is_prestate', 'RQ.Abs.C08_backups_total',
                  'RQ.Abs.C08_backups_on_disk', 'RQ.Abs.C08_backup_on_disk_is_prestate', 'RQ.Abs.C08_every_status_backed_up',
-                 'RQ.Abs.C08_apart_of_distinct_patches', 'RQ.Abs.C08_backup_paths_no_prefix', 'RQ.Abs.C08_no_backups_on_disk', 'RQ.Abs.C08_no_backups_on_disk_of_clean'],
-    'extra_modules': ['RQ.Props.C08Disk'],
+                 'RQ.Abs.C08_apart_of_distinct_patches', 'RQ.Abs.C08_backup_paths_no_prefix', 'RQ.Abs.C08_no_backups_on_disk', 'RQ.Abs.C08_no_backups_on_disk_of_clean',
+                 'RQ.Refine2.C08_backups_refine_nodes', 'RQ.Refine2.C08_backups_refine', 'RQ.Refine2.C08_backup_files_refine', 'RQ.Refine2.C05_push_refines_pushSpec_all'],
+    'extra_modules': ['RQ.Props.C08Disk', 'RQ.Props.C08Refine'],
     'verdict': 'SPEC',
     'jobs': push_jobs(['inv=2', 'patches=5'], ['inv=3', 'patches=6']),
     'nontrivial': lambda l: re.search(r'2e70632f70[0-9a-f]*2f', l.split('|=>|')[-1]) is not None,
@@ -451,7 +458,9 @@ PROPS['C18'] = {
 
 
 PROPS['C06'] = {
-    'theorems': ['RQ.Par.C06_apply_phase', 'RQ.Par.C06_save_phase', 'RQ.Par.C06_error_index', 'RQ.Par.C06_apply_eq_sequential', 'RQ.Par.C06_parallel_eq_sequential_tree', 'RQ.Par.C06_queues_sorted', 'RQ.Par.C06_frame', 'RQ.Par.C06_local', 'RQ.Par.C06_commute', 'RQ.Par.C06_disjoint'],
+    'theorems': ['RQ.Par.C06_apply_phase', 'RQ.Par.C06_save_phase', 'RQ.Par.C06_error_index', 'RQ.Par.C06_apply_eq_sequential', 'RQ.Par.C06_parallel_eq_sequential_tree', 'RQ.Par.C06_queues_sorted', 'RQ.Par.C06_frame', 'RQ.Par.C06_local', 'RQ.Par.C06_commute', 'RQ.Par.C06_disjoint',
+                 'RQ.Par.C06_parallel_tight', 'RQ.Par.C06_parallel_outsidePc', 'RQ.Par.C06_parallel_files', 'RQ.Par.C06_par_refines_pushSpec', 'RQ.Par.C06_par_refines_pushSpec_via_seq'],
+    'extra_modules': ['RQ.Props.C06Refine'],
     'verdict': 'C06',
     'jobs': [{'quick': ['pushsched', 'seed={seed}', 'n=900', 'perws=3', 'fail=75', 'morefail=70'], 'thorough': ['pushsched', 'seed={seed}', 'n=30000', 'perws=6', 'fail=75', 'morefail=70']}] +
             push_jobs(['threads=2,3,4,8,16', 'inv=2'], ['threads=2,3,4,8,16', 'inv=3'], nq=2500, nt=60000),
